@@ -18,10 +18,12 @@ def place_key(pl):
 
 
 class Walker:
-    def __init__(self, fn, sigma, watch, max_paths=200000):
+    def __init__(self, fn, sigma, watch, classify=None, max_paths=200000, decide=None):
+        self.decide = decide
         self.fn = fn
         self.sigma = sigma
         self.watch = watch
+        self.classify = classify
         self.memo = {}
         self.onstack = set()
         self.max_paths = max_paths
@@ -95,7 +97,9 @@ class Walker:
             d = t["discr"]
             if "discr_of" in t:
                 pk = place_key(t["discr_of"])
-                if pk in self.sigma:
+                if self.classify is not None:
+                    pk = self.classify(self.fn, bid, t)
+                if pk is not None and pk in self.sigma:
                     want = self.sigma[pk]
                     forced = t["otherwise"]
                     for v, tb, name in t["targets"]:
@@ -108,6 +112,13 @@ class Walker:
                     forced = t["otherwise"]
                     for v, tb, name in t["targets"]:
                         if v == val:
+                            forced = tb
+            if forced is None and self.decide is not None and "discr_of" not in t and t.get("discr_ty") == "bool":
+                val = self.decide(self.fn, bid, t, self.sigma)
+                if val is not None:
+                    forced = t["otherwise"]
+                    for v, tb, name in t["targets"]:
+                        if (v != 0) == bool(val):
                             forced = tb
             if forced is not None:
                 nexts.append(forced)
@@ -131,6 +142,6 @@ class Walker:
         return res
 
 
-def walk(fn, sigma, watch):
-    w = Walker(fn, sigma, watch)
+def walk(fn, sigma, watch, classify=None):
+    w = Walker(fn, sigma, watch, classify)
     return w.run()
